@@ -17,6 +17,9 @@ type c11Job struct {
 	Bound    int    `json:"bound"`
 	MaxExec  int    `json:"max_exec"`
 	Replay   []int  `json:"replay,omitempty"`
+	// Part / Parts: the subtrees below the root execution are dealt out to Parts jobs (child k goes to job k % Parts)
+	Part  int `json:"part,omitempty"`
+	Parts int `json:"parts,omitempty"`
 }
 
 type c11Viol struct {
@@ -54,15 +57,88 @@ func c11Explore(c *vlib.Ctx, filter func(name string) bool, keyPrefix string, bo
 		if strings.HasPrefix(s.name, "S4") {
 			b = bound - 1 // label operations have hundreds of scheduling points per request
 		}
-		jb, _ := json.Marshal(c11Job{Scenario: s.name, Bound: b, MaxExec: maxExec})
-		jobs = append(jobs, string(jb))
-		names = append(names, s.name)
+		parts := 1
+		if s.quietGate {
+			parts = 14 // ~2000 executions of ~0.15 s each at deviation bound 1
+		}
+		for part := 0; part < parts; part++ {
+			jb, _ := json.Marshal(c11Job{Scenario: s.name, Bound: b, MaxExec: maxExec, Part: part, Parts: parts})
+			jobs = append(jobs, string(jb))
+			names = append(names, s.name)
+		}
 	}
 	vlib.JobTimeout = 40 * time.Minute
 	return c11Collect(c, keyPrefix, names, vlib.Pool("c11", nil, 16, jobs))
 }
 
 func c11Collect(c *vlib.Ctx, keyPrefix string, names []string, results []vlib.PoolResult) (states, transitions int64) {
+	// jobs that explore parts of one scenario are merged first
+	merged := map[string]*c11Result{}
+	var order []string
+	var bad []int
+	for i, r := range results {
+		if r.Died {
+			bad = append(bad, i)
+			continue
+		}
+		var res c11Result
+		if err := json.Unmarshal([]byte(r.Out), &res); err != nil || res.Err != "" {
+			bad = append(bad, i)
+			continue
+		}
+		m, ok := merged[names[i]]
+		if !ok {
+			cp := res
+			merged[names[i]] = &cp
+			order = append(order, names[i])
+			continue
+		}
+		for k, v := range res.Executions {
+			m.Executions[k] += v
+		}
+		for k, v := range res.Outcomes {
+			m.Outcomes[k] += v
+		}
+		for k, v := range res.Observed {
+			if m.Observed == nil {
+				m.Observed = map[string]int{}
+			}
+			m.Observed[k] += v
+		}
+		if res.Completed < m.Completed {
+			m.Completed = res.Completed
+		}
+		m.Capped = m.Capped || res.Capped
+		if res.Points > m.Points {
+			m.Points = res.Points
+		}
+		m.ExtBlocks += res.ExtBlocks
+		if m.Nondet == "" {
+			m.Nondet = res.Nondet
+		}
+		have := map[string]bool{}
+		for _, v := range m.Viol {
+			have[v.Class] = true
+		}
+		for _, v := range res.Viol {
+			if !have[v.Class] {
+				m.Viol = append(m.Viol, v)
+				have[v.Class] = true
+			}
+		}
+	}
+	var mr []vlib.PoolResult
+	var mn []string
+	for _, i := range bad {
+		mr = append(mr, results[i])
+		mn = append(mn, names[i])
+	}
+	for _, n := range order {
+		b, _ := json.Marshal(merged[n])
+		mr = append(mr, vlib.PoolResult{Out: string(b)})
+		mn = append(mn, n)
+	}
+	results, names = mr, mn
 	for i, r := range results {
 		if r.Died {
 			if r.TimedOut {
